@@ -408,6 +408,8 @@ var vpTemplates = []string{
 	/* 37 */ "local \x01 = 1\nlocal \x02 = { \x01, [\x01] = \x03, k = \x01 }\ng = \x02\n",
 	/* 38 */ "local \x01 = 1\nlocal s = \"x\" .. \x01 .. \x02\ng = #\x01 + -\x02\n",
 	/* 39 */ "local \x01 = function(\x02, ...)\n local \x03 = ...\n return \x03, \x02\nend\ng = \x01\n",
+	// declarations inside elseif branches (also inside a closure written there)
+	/* 40 */ "local \x01 = 0\nif k then\n g = \x01\nelseif j then\n local \x02 = 1\n g = \x02\n local f = function(\x03) return \x03 + \x02 end\nelseif i then\n local \x04 = 2\n g = \x04\nelse\n g = \x01\nend\n",
 }
 
 // vpInstantiate fills the holes of template t with symbolic names; tag prefixes the variable names.
